@@ -267,6 +267,71 @@ func TestVerifC20Ready(t *testing.T) {
 		}
 		out.Emit(verifh.Case{ID: "c20ready-http", Input: map[string]any{"scenario": "http"}, Observed: obs, Tags: []string{"ready:http"}, ImplViolation: viol})
 	}
+	// ---- the debug address is still held by someone else when the task starts (the previous instance during a restart
+	// overlap -- what the retry loop exists for): not ready while it cannot listen, ready once it does
+	if out.Wants("c20ready-http-busy") {
+		var viol string
+		obs := map[string]any{}
+		holder, herr := net.Listen("tcp", "127.0.0.1:0")
+		if herr != nil {
+			obs["unavailable"] = herr.Error()
+		} else {
+			srv := NewServer(NewContext(log.New(io.Discard, "", 0), nil, nil))
+			cfg := config.Config{}
+			cfg.Debug.Address = holder.Addr().String()
+			var ht *httpTask
+			for _, task := range srv.BuildTasks(cfg, http.NotFoundHandler()) {
+				if x, ok := task.(*httpTask); ok {
+					ht = x
+				}
+			}
+			if ht == nil {
+				viol = "BuildTasks created no debug HTTP task for a configured address"
+			} else {
+				ctx, cancel := context.WithCancel(context.Background())
+				done := make(chan error, 1)
+				go func() { done <- ht.Run(ctx) }()
+				early := false
+				select {
+				case <-ht.Ready():
+					early = true
+				case err := <-done:
+					viol = fmt.Sprintf("the debug HTTP task gave up at the first failed attempt: %v", err)
+				case <-time.After(1500 * time.Millisecond):
+				}
+				holder.Close()
+				late := false
+				if viol == "" {
+					select {
+					case <-ht.Ready():
+						late = true
+					case <-time.After(8 * time.Second): // the next attempt is due 3 s after the first
+					}
+				}
+				cancel()
+				returned := false
+				if viol == "" {
+					select {
+					case <-done:
+						returned = true
+					case <-time.After(5 * time.Second):
+					}
+				}
+				obs["ready_while_address_in_use"], obs["ready_after_release"], obs["returned"] = early, late, returned
+				switch {
+				case viol != "":
+				case early:
+					viol = "the debug HTTP task reports ready while its address is in use by another socket (it is not listening)"
+				case !late:
+					viol = "the debug HTTP task never reported ready after its address became free"
+				case !returned:
+					viol = "the debug HTTP task did not return within 5 s of the cancellation"
+				}
+			}
+			holder.Close()
+		}
+		out.Emit(verifh.Case{ID: "c20ready-http-busy", Input: map[string]any{"scenario": "http-address-in-use"}, Observed: obs, Tags: []string{"ready:http-busy"}, ImplViolation: viol})
+	}
 	for k, werr := range []error{nil, fmt.Errorf("netstate: not supported: %w", os.ErrNotExist), errors.New("netlink: boom")} {
 		id := fmt.Sprintf("c20ready-watcher-%d", k)
 		if !out.Wants(id) {
